@@ -98,6 +98,9 @@ pub fn any_message_of_kind<const K: u8>() -> Message<'static> {
         5 => Message::AckOperation(a, any_op()),
         6 => Message::PixelsComplete(a),
         7 => Message::Goodbye(a),
+        // 8, 9: a report / an acknowledgement with CONCRETE state / operation (see below)
+        8 => Message::ReportState(a, State::PageLoaded),
+        9 => Message::AckOperation(a, Operation::StartReset),
         // 10..=15: an operation request with a CONCRETE operation (a symbolic operation makes the
         // frame's data pointer symbolic, which the encoder harnesses cannot afford)
         10 => Message::RequestOperation(a, Operation::ReceiveConfig),
